@@ -7,12 +7,12 @@ open NTV.Prime
 
 /-- n ≤ 1 is rejected without drawing anything -/
 theorem le_one_rejected (n : Int) (hn : n ≤ 1) (s : NTV.Draw.Stream) : isPrime n s = some false := by
-  unfold isPrime; simp [hn]
+  unfold isPrime isPrimeS; simp [hn]
 
 /-- even n > 2 is rejected without drawing anything -/
 theorem even_rejected (n : Int) (hn : 2 < n) (he : n % 2 = 0) (s : NTV.Draw.Stream) :
     isPrime n s = some false := by
-  unfold isPrime
+  unfold isPrime isPrimeS
   have h1 : ¬ (n ≤ 1) := by omega
   have h2 : (n == 2) = false := by simp; omega
   simp [h1, h2, he]
@@ -20,7 +20,7 @@ theorem even_rejected (n : Int) (hn : 2 < n) (he : n % 2 = 0) (s : NTV.Draw.Stre
 /-- one-sidedness, full: a prime is never rejected, whatever the random generator serves -/
 theorem prime_never_rejected (n : Nat) (hn : n.Prime) (s : NTV.Draw.Stream) :
     isPrime (n : Int) s ≠ some false := by
-  unfold isPrime
+  unfold isPrime isPrimeS
   have h2 := hn.two_le
   have h1 : ¬ ((n : Int) ≤ 1) := by omega
   simp only [h1, ↓reduceIte]
@@ -37,7 +37,16 @@ theorem prime_never_rejected (n : Nat) (hn : n.Prime) (s : NTV.Draw.Stream) :
     have : Fact n.Prime := ⟨hn⟩
     generalize hdc : splitTwos n (n - 1) 0 = dc
     obtain ⟨d, c⟩ := dc
-    exact rounds_prime n (by omega) d c hdc 20 s
+    simp only
+    intro h
+    cases hr : roundsS n d c 20 s with
+    | none => rw [hr] at h; simp at h
+    | some v =>
+      obtain ⟨b, rest⟩ := v
+      rw [hr] at h
+      simp only [Option.map_some, Option.some.injEq] at h
+      subst h
+      exact rounds_prime n (by omega) d c hdc 20 s rest hr
 
 /-- consequently a `false` answer proves compositeness (or n ≤ 1) -/
 theorem false_means_not_prime (n : Nat) (s : NTV.Draw.Stream) (h : isPrime (n : Int) s = some false) :
